@@ -224,13 +224,15 @@ def _rest(db, chk, m, TR):
     ta = db.mod("hta.trace_analysis")
     fac = ta.func("TraceAnalysis.get_comm_comp_overlap")
     cs = [c for c in H.calls(fac) if isinstance(c.func, ast.Attribute) and c.func.attr == "get_comm_comp_overlap"]
-    if len(cs) != 1:
-        raise AnalysisError("facade delegation not found")
-    bnd = H.bind_call(f3, cs[0])
-
     for _p, _src, _v in H.rebinds_of_params(fac, ["visualize"]):
         chk.ob("C07.R-facade-integrity", f"facade forwards parameter {_p} unmodified", _v == "default-if-none", ta.loc(fac), found=_src, accepted="no re-binding, or `if p is None: p = <default>`",
                why="`p = p or default` replaces legitimate falsy values (a threshold of 0, an empty selection) by the default")
+    if len(cs) != 1:
+        from ..specs.discipline import check_facade_binding
+        check_facade_binding(db, chk, "C07.R3-facade", "TraceAnalysis.get_comm_comp_overlap", CA, "CommunicationAnalysis.get_comm_comp_overlap", returns=lambda I: Frame(("overlap", I.new_id())))
+        return
+    bnd = H.bind_call(f3, cs[0])
+
     chk.ob("C07.R3-facade", "facade forwards trace and visualize", H.is_self_attr(bnd.get("t"), "t") and H.name_id(bnd.get("visualize")) == "visualize",
            ta.loc(cs[0]), found={k: ast.unparse(v) for k, v in bnd.items()}, accepted={"t": "self.t", "visualize": "visualize"})
 
